@@ -121,17 +121,38 @@ theorem sendMessage_Neutral (s : State) (remote : Remote) (mc : Bool) (token : T
 theorem sendBare_Neutral (s : State) (remote : Remote) (t : MType) (mid : Nat) :
     Neutral s (sendBare s remote t mid) := sendInitially_Neutral _ _ _ _ _
 
-theorem processRequest_Neutral (s : State) (remote : Remote) (w : Wire) :
-    Neutral s (processRequest s remote w) := by
-  unfold processRequest tokenProcessRequest
+theorem fireEmptyAck_Neutral (s : State) (remote : Remote) (token : Token) :
+    Neutral s (fireEmptyAck s remote token) := by
+  unfold fireEmptyAck
+  split
+  · exact Neutral_refl s
+  · have := sendBare_Neutral (dropPiggy s remote token) remote .ack ‹Piggy›.mid
+    exact ⟨this.og, this.nt⟩
+
+theorem tokenProcessRequest_Neutral (s : State) (remote : Remote) (w : Wire) :
+    Neutral s (tokenProcessRequest s remote w) := by
+  unfold tokenProcessRequest
   simp only
   refine ⟨?_, ?_⟩
-  · split <;> split <;> rfl
+  · split <;> rfl
   · intro o ho
-    split at ho <;> split at ho <;>
+    split at ho <;>
       simp only [List.mem_append, List.mem_singleton, List.mem_cons, List.not_mem_nil, or_false,
         false_or] at ho <;>
       (try rcases ho with rfl | rfl) <;> (try subst ho) <;> rfl
+
+theorem processRequest_Neutral (s : State) (remote : Remote) (w : Wire) :
+    Neutral s (processRequest s remote w) := by
+  have h0 := fireEmptyAck_Neutral s remote w.token
+  unfold processRequest
+  simp only
+  generalize fireEmptyAck s remote w.token = r0 at h0
+  split
+  · have h1 := tokenProcessRequest_Neutral
+      { r0.1 with piggy := r0.1.piggy ++ [{ remote, token := w.token, mid := w.mid,
+                                             fireAt := r0.1.now + r0.1.cfg.emptyAckDelay }] } remote w
+    exact ⟨h1.og.trans h0.og, NoTerm_append h0.nt h1.nt⟩
+  · exact h0.trans (tokenProcessRequest_Neutral r0.1 remote w)
 
 -- functions that do touch the request table -----------------------------------------------------
 
@@ -290,12 +311,12 @@ theorem recv_Acct (r : Nat) (s : State) (remote : Remote) (mcLocal : Bool) (w : 
       · exact Acct_of_Neutral (Neutral_refl s)
     · exact Acct_of_Neutral (Neutral_refl s)
   · dsimp only
-    generalize hs0 : (if isRequest w.code = true then
+    generalize hs0 : (if dedupable w = true then
         ({ s with recent := s.recent ++ [(⟨remote, w.mid, none, s.now + s.cfg.exchangeLifetime⟩ : Recent)] } : State)
         else s) = s0
     have e0 : s0.outgoing = s.outgoing := by
       rw [← hs0]; split <;> rfl
-    generalize hx : (if (w.mtype == MType.ack || w.mtype == MType.rst) = true then removeExchange s0 remote w
+    generalize hx : (if fitsReply w = true then removeExchange s0 remote w
         else (s0, [])) = x
     have h1 : Acct r s x := by
       rw [← hx]
